@@ -15,6 +15,14 @@ def tick():
 
 
 
+def pick(v, lo, hi):
+    "turn a bounded symbolic int into a concrete one by case split (each case is a solver-checked branch)"
+    for i in range(lo, hi):
+        if v == i:
+            return i
+    raise AssertionError("pick: value outside [%d,%d)" % (lo, hi))
+
+
 def lam(v, body):
     args = [ast.arg(x) for x in ([v] if isinstance(v, str) else v)]
     return ast.Lambda(ast.arguments([], args, None, [], [], None, []), body)
@@ -81,3 +89,85 @@ def snap(n):
     if isinstance(n, list):
         return ("list", id(n), tuple(snap(x) for x in n))
     return ("leaf", id(n))
+
+
+# ---------------------------------------------------------------- fast (untraced) structural helpers
+PLAIN = (int, str, bool, float, bytes, type(None), complex)
+
+
+class _Null:
+    def __enter__(self):
+        return None
+
+    def __exit__(self, *a):
+        return False
+
+
+def nt():
+    """NoTracing() while CrossHair is tracing, a no-op otherwise (native replay).  Code under `with nt():`
+    is NOT symbolically executed: only harness-side bookkeeping that never branches on symbolic values goes there."""
+    try:
+        from crosshair.tracers import NoTracing, is_tracing
+        if is_tracing():
+            return NoTracing()
+    except Exception:  # noqa
+        pass
+    return _Null()
+
+
+def _pairs(a, b, out):
+    "structural walk (node types / list lengths are always concrete); collects leaf pairs that need a (traced) comparison"
+    if isinstance(a, ast.AST):
+        if type(a) is not type(b):
+            return False
+        for f in a._fields:
+            if f == "ctx" or f == "kind" or f == "type_comment":
+                continue
+            if not _pairs(getattr(a, f, None), getattr(b, f, None), out):
+                return False
+        return True
+    if type(a) is list:
+        if type(b) is not list or len(a) != len(b):
+            return False
+        for x, y in zip(a, b):
+            if not _pairs(x, y, out):
+                return False
+        return True
+    if isinstance(b, ast.AST) or type(b) is list:
+        return False
+    if a is b:
+        return True
+    if type(a) in PLAIN and type(b) in PLAIN:
+        return type(a) is type(b) and (a == b) and (repr(a) == repr(b))
+    out.append((a, b))
+    return True
+
+
+def same_fast(a, b):
+    """structural equality; the tree walk is untraced, only leaf pairs involving a symbolic value are compared
+    under tracing (type-compatible and ==)."""
+    out = []
+    with nt():
+        ok = _pairs(a, b, out)
+    if not ok:
+        return False
+    for x, y in out:
+        for t in (bool, int, float, str, bytes, type(None)):
+            if isinstance(x, t) != isinstance(y, t):
+                return False
+        if not (x == y):
+            return False
+    return True
+
+
+def snap_fast(n):
+    with nt():
+        return snap(n)
+
+
+def dump(n):
+    "ast.dump for diagnostics, never raises"
+    try:
+        return ast.dump(n)
+    except Exception as e:  # noqa
+        return "<undumpable %s: %s>" % (type(n).__name__, e)
